@@ -69,7 +69,7 @@ MC = {
     "C06": [("MC_Scalars.tla", "MC_Scalars.cfg", QT, ())],
     "C07": [("MC_Scalars.tla", "MC_Scalars.cfg", QT, ())],
     "C08": [("MC_Sswu.tla", "MC_Sswu.cfg", QT, ())],
-    "C10": [("MC_History.tla", "MC_History_6.cfg", Q_, ()), ("MC_History.tla", "MC_History_7.cfg", T_, ()), ("MC_History.tla", "MC_History_wide.cfg", T_, ())],
+    "C10": [("MC_History.tla", "MC_History_5.cfg", Q_, ()), ("MC_History.tla", "MC_History_6.cfg", T_, ()), ("MC_History.tla", "MC_History_wide.cfg", T_, ())],
     "C11": [("MC_Sswu.tla", "MC_Sswu.cfg", QT, ()), ("MC_Sswu.tla", "MC_Sswu_79.cfg", QT, ())],
     "C13": [("MC_Scalars.tla", "MC_Scalars.cfg", QT, ())],
     "C14": [("MC_Scalars.tla", "MC_Scalars.cfg", QT, ()), ("MC_Ladder.tla", "MC_Ladder.cfg", QT, ())],
@@ -427,7 +427,17 @@ def record_pass(prop, gname, groups, tier, seed, scale, work, tdir):
 
 N_MINUS = {29: -2, 30: -1}          # toy scalar constants n-2, n-1 (n = 31) -> the real n-2, n-1
 GROUP_ORDER = 0xFFFFFFFFFFFFFFFFFFFFFFFFFFFFFFFEBAAEDCE6AF48A03BBFD25E8CD0364141
-RE_LAST = re.compile(r'last = <<"(\w+)", (\d+), (\d+)>>')
+RE_LAST = re.compile(r'last = <<"(\w+)", (\d+), (<<\d+, \d+>>|\d+)>>')
+_P = 2**256 - 2**32 - 977
+_GX = 0x79BE667EF9DCBBAC55A06295CE870B07029BFCDB2DCE28D959F2815B16F81798
+_GY = 0x483ADA7726A3C4655DA4FBFC0E1108A8FD17B448A68554199C47D08FFB10D4B8
+_b32 = lambda v: list(v.to_bytes(32, "big"))
+# the fixed decoder inputs of MC_History (DecodeInputsDef, toy bytes) and their real-scale counterparts, class by class
+REAL_DECODE_INPUTS = [
+    [0], [1], [2] + _b32(_GX), [3] + _b32(_GX), [2] + _b32(_P + 1), [2] + _b32(5), [5] + _b32(_GX),
+    [4] + _b32(_GX) + _b32(_GY), [4] + _b32(_GX) + _b32(_GY + 1), [4] + _b32(_P + 1) + _b32(_GY), [4] + _b32(_GX) + _b32(_P + 5),
+    [], [2] + _b32(_GX) + [1, 1],
+]
 
 
 def tlc_scenarios(specdir, work, seed, num, depth):
@@ -449,10 +459,21 @@ def tlc_scenarios(specdir, work, seed, num, depth):
     for f in sorted(glob.glob(os.path.join(out, "b_*"))):
         evs = []
         for name, x, y in RE_LAST.findall(open(f).read()):
-            x, y = int(x), int(y)
+            x = int(x)
             if name == "init":
                 continue
-            if name == "SSetC":
+            if name == "SCSelect":
+                c, a2 = [int(t) for t in y.strip("<>").split(",")]
+                evs.append({"op": "SCSelect", "r": x, "cond": [0] * 7 + [c], "a": x, "b": a2})
+                continue
+            y = int(y)
+            if name in ("EDecodeEnc", "EDecodeUnc"):
+                evs.append({"op": "EDecodeOf", "r": x, "a": y, "form": "enc" if name == "EDecodeEnc" else "unc"})
+            elif name == "EDecodeFixed":
+                evs.append({"op": "EDecode", "r": x, "data": REAL_DECODE_INPUTS[y - 1]})
+            elif name in ("EAddNil", "ESubNil", "EMulNil", "SSquare", "SInvert"):
+                evs.append({"op": name, "r": x})
+            elif name == "SSetC":
                 v = y if y not in N_MINUS else GROUP_ORDER + N_MINUS[y]
                 evs.append({"op": "SSetInt", "r": x, "v": list(v.to_bytes(32, "big"))})
             elif name == "EMul":
